@@ -168,12 +168,12 @@ def run(ctx):
         ures[i] = r
     res = nagarun.parallel_batches(tools["layoutdrive"], "compile", jobs, per_job_timeout=20.0, chunk=16)
     stats = {"programs": len(progs), "uniform_trees": len(uidx), "uniform_candidates_dropped": dropped,
-             "ir_compared": 0, "spv_compared": 0, "hlsl_addresses_compared": 0, "msl_compared": 0,
+             "ir_compared": 0, "spv_compared": 0, "hlsl_addresses_compared": 0, "msl_compared": 0, "hlsl_cbuffers_compared": 0,
              "glsl_compared": 0, "rejected_by_naga": 0, "trees_within_theorem_hypotheses": 0,
              "known_deviation_trees": 0, "max_depth": 0, "max_nodes": 0, "with_align": 0, "with_size": 0,
              "with_f16": 0, "with_runtime_array": 0}
     shapes = set()
-    Q = {"msl": [], "glsl": []}
+    Q = {"msl": [], "glsl": [], "hlslcb": []}
     for i in range(len(progs)):
         name, st, ut, src, info = meta[i]
         r = res.get(i)
@@ -202,10 +202,11 @@ def run(ctx):
         if len(ctx.cov["samples"]) < 5 and i >= len(PROBES):
             ctx.sample({"program": name, "wgsl_head": src[:300], "spec_layout": mres[i]["spec"]})
     finish_msl(ctx, exe, Q["msl"], stats)
+    finish_hlslcb(ctx, exe, Q["hlslcb"], stats)
     finish_glsl(ctx, exe, Q["glsl"], stats)
     ctx.cov["correspondence"] = stats
     ctx.cov["evaluations"] = (stats["ir_compared"] + stats["spv_compared"] + stats["hlsl_addresses_compared"] +
-                              stats["msl_compared"] + stats["glsl_compared"])
+                              stats["msl_compared"] + stats["glsl_compared"] + stats["hlsl_cbuffers_compared"])
     ctx.cov["distinct_nontrivial"] = len(shapes)
     ctx.cov["traces_validated_against_impl"] = stats["ir_compared"]
     ctx.cov["rule"] = ("one evaluation = one (variable, observable) comparison: IR layout tree, SPIR-V decoration tree, "
@@ -316,6 +317,16 @@ def check_var(ctx, Q, stats, name, var, binding, tree, m, r, info, files, storag
                               files=dict(files, **{"out.hlsl": r["hlsl"]}), key="hlsl:" + th,
                               broken="HLSL byte-address arithmetic (storage.go computeSubAccess / writeStorageStore)")
                 break
+    elif "hlsl" in r and not storage:
+        try:
+            hh = L.Hlsl(r["hlsl"])
+            cb = hh.cbuffer(var)
+            if cb is None:
+                raise ValueError("cbuffer for %s not found" % var)
+            Q["hlslcb"].append((name, var, th, tree, m, cb, want, files, r["hlsl"]))
+        except Exception as e:
+            ctx.violation("HLSL cbuffer of %s could not be read (%s): %r" % (var, name, e),
+                          files=dict(files, **{"out.hlsl": r["hlsl"]}), key="hlslcb-read:" + name)
     elif "hlsl" not in r:
         ctx.violation("HLSL backend failed on a host-shareable type (%s): %s" % (name, r.get("hlsl_err")), files=files,
                       key="hlsl-err:" + L.re.sub(r"\d+", "N", str(r.get("hlsl_err")))[:80])
@@ -447,3 +458,24 @@ def finish_glsl(ctx, exe, queue, stats):
         else:
             ctx.violation(what + "\n(contradicts %s)" % ("std140_eq_wgsl" if std140 else "std430_eq_wgsl"), files=files,
                           key="glsl:" + th, broken="theorem std430/std140_eq_wgsl vs extracted model")
+
+
+def finish_hlslcb(ctx, exe, queue, stats):
+    if not queue:
+        return
+    res = vcheck.run_model(exe, [{"op": "hlslcb", "h": q[5][0]} for q in queue])
+    for (name, var, th, tree, m, cb, want, files, text), hr in zip(queue, res):
+        stats["hlsl_cbuffers_compared"] += 1
+        files = dict(files, **{"out.hlsl": text})
+        if not hr.get("ok"):
+            ctx.violation("HLSL cbuffer member of %s not understood by the packing model (%s): %s" % (var, name, hr),
+                          files=files, key="hlslcb-read:" + name)
+            continue
+        got = L.erase(L.hl_to_lay(hr["lay"], cb[1]), True, False)
+        exp = L.erase(want, True, False)
+        bad = L.hl_continuations_ok(hr["lay"])
+        if got != exp or bad:
+            ctx.violation("HLSL cbuffer packing of the struct emitted for %s differs from the IR layout (%s): %s %s\n"
+                          "HLSL packing %s\nIR layout    %s" % (var, name, L.first_diff(got, exp), bad or "", got, exp),
+                          files=files, key="hlslcb:" + th,
+                          broken="HLSL cbuffer struct emission (types.go writeStructDefinition padding / matCx2 decomposition)")
